@@ -159,7 +159,7 @@ def setup(pr):
 
 
 def make_history(rng, kind, n, psi=None):
-    gscale = gens.logu(rng, 1e-3, 3.0)
+    gscale = gens.logu(rng, 1e-3, 3.0) if rng.random() < 0.7 else gens.logu(rng, 1e-14, 1e-3)      # also a sensor at rest: tiny but non-zero rates
     g = rng.standard_normal((n, 3)) * gscale
     if kind == "integer":                              # raw register counts / hand-typed whole numbers; also handed over as int arrays and lists
         g = rng.integers(-3, 4, (n, 3)).astype(float)
